@@ -164,7 +164,7 @@ impl Engine for VcState {
     fn cases(&self, tier: Tier) -> Box<dyn Iterator<Item = StateCase> + Send + '_> {
         let (max_depth, alphabet): (usize, Vec<usize>) = match tier {
             Tier::Quick => (2, (0..SNIPPETS.len()).collect()),
-            Tier::Thorough => (3, (0..SNIPPETS.len()).collect()),
+            Tier::Thorough => (4, (0..SNIPPETS.len()).collect()),
         };
         let initial = reference_run(&[]).unwrap_or_else(|e| machinery_failure(&format!("reference bash does not run: {e}")));
         let mut states = HashMap::new();
@@ -208,7 +208,7 @@ impl Engine for VcState {
         format!(
             "breadth-first search from the empty history over {} state-changing snippets (export/modify/unset variables, values with spaces/newlines/quotes/non-ASCII, indexed and associative arrays, integer attribute, functions, aliases, set -o noclobber/-u/-f, shopt, cd, pushd/popd, state-dependent updates, two detached snippets); states are merged on the reference probe output; every transition out of every state at depth < {} is executed",
             SNIPPETS.len(),
-            if tier == Tier::Quick { 2 } else { 3 }
+            if tier == Tier::Quick { 2 } else { 4 }
         )
     }
     fn rule(&self, _p: &str) -> String {
